@@ -3,7 +3,8 @@
 EXTENDS Integers, FiniteSets, TLC
 
 CONSTANTS TimeBound,     \* the clock runs 0..TimeBound
-          MCMaxP, MCHour, MCRetry
+          MCMaxP, MCHour, MCRetry,
+          MCScheds       \* the timers that can be configured: a subset of {"A", "B", "C"}
 
 W(s, e) == [s |-> s, e |-> e]
 
@@ -11,7 +12,6 @@ W(s, e) == [s |-> s, e |-> e]
 WinTable == [A |-> {W(1, 2), W(4, 4), W(6, 7)},
              B |-> {W(3, 3), W(7, 9)},
              C |-> {}]                       \* a timer whose windows are all beyond the horizon
-MCScheds == {"A", "B", "C"}
 MCWinOf(s, lo, hi) == {w \in WinTable[s] : w.e >= lo /\ w.s <= hi}
 
 VARIABLES now, sched, lastRefresh, holdUntil, inFlight, nextRefresh, lastSched, lastAttempt, ensured, mon
